@@ -11,6 +11,7 @@ SIGNALS = [
     ("s0", "VfWidget", "pointed", (ge.PTR,)),
     ("s0", "VfWidget", "ranked", (ge.UINT, ge.DOUBLE)),
     ("s0", "VfWidget", "moded", (ge.MODE,)),
+    ("s0", "VfWidget", "deep", (ge.INT, ge.STR, ge.BOOL)),    # deep(int a, QString b = {}, bool c = false): 3 entries
     ("s0", "VfWidget", "ivalChanged", ()),
     ("s0", "VfWidget", "bvalChanged", (ge.BOOL,)),
     ("s0", "VfWidget", "svalChanged", (ge.STR,)),
@@ -24,7 +25,7 @@ SIGNALS = [
     ("s1", "VfSub", "poked", (ge.INT, ge.STR)),             # inherited signal on a derived sender
 ]
 SIGNAL_OWNER = {"fired": "VfWidget", "poked": "VfWidget", "nudged": "VfWidget", "triple": "VfWidget", "told": "VfWidget",
-                "pointed": "VfWidget", "ranked": "VfWidget", "moded": "VfWidget", "ivalChanged": "VfWidget",
+                "pointed": "VfWidget", "ranked": "VfWidget", "moded": "VfWidget", "deep": "VfWidget", "ivalChanged": "VfWidget",
                 "bvalChanged": "VfWidget", "svalChanged": "VfWidget", "clicked": "QAbstractButton", "toggled": "QAbstractButton",
                 "pressed": "QAbstractButton", "cursorPositionChanged": "QLineEdit", "textEdited": "QLineEdit",
                 "returnPressed": "QLineEdit", "extraChanged": "VfSub"}
@@ -53,6 +54,10 @@ NEGATIVE = [
     ("edit2", "onCursorPositionChanged: function(a: int, b: int, c: int) {}", "too many callback arguments"),
     ("s0", "onTold: function(s: QString, s: QString) {}", "redefinition"),
     ("s0", "onFired: function named() {}", "named function"),
+    # families that diverge after a common prefix are true overloads
+    ("s0", "onMixed: {}", "overloaded signal"),        # mixed(int), mixed(int,bool), mixed(int,QString)
+    ("s0", "onMixed2: {}", "overloaded signal"),       # mixed2(), mixed2(int), mixed2(QString)
+    ("s0", "onMixed3: function(a: int) {}", "overloaded signal"),   # mixed3(int,int), mixed3(int), mixed3(int,QString,bool)... see vftypes
 ]
 PARAM_ANNOT = dict(ge.ANNOT)
 PURE_METHODS = {"twice", "sum", "greet", "test", "half", "other"}
@@ -88,7 +93,7 @@ class CbDoc:
                                "expr" if nparams == 0 else "arrow"))
             params = [("p%d" % i, ats[i]) for i in range(nparams)]
             if form == "expr":
-                g.locals, g.hidden, g.nlocal = [{}], set(), 0
+                g.locals, g.hidden, g.nlocal, g.no_methods = [{}], set(), 0, True
                 body = [g.effect()]
                 text = ge.pr_stmts(body, rng, 0)[0].rstrip(";")
             else:
@@ -220,8 +225,6 @@ def observed_trace(events):
         if ev == "write":
             out.append(("write", e["obj"], e["prop"], cxxrun.decode(e["value"])))
         elif ev == "call":
-            if e["method"] in PURE_METHODS:
-                continue   # value-returning model functions without effect (they log for the sake of other checks)
             out.append(("call", e["obj"], e["method"], tuple(cxxrun.decode(x) for x in e["args"])))
         elif ev == "log":
             items = []
